@@ -211,7 +211,7 @@ func c12(args []string) {
 	for g := 0; g < ng; g++ {
 		b := []int{1, 2, 3, 128}[rng.Intn(4)]
 		mt := []int{2, 4, 8}[rng.Intn(3)]
-		o := gen.GraphOpts{MaxProcs: 7, Lens: []int{2, 3, 5, b + 1}, Buf: b, FanIn: true, Params: true, GoFunc: true, MultiOut: true, Portless: true,
+		o := gen.GraphOpts{MaxProcs: 7, Lens: []int{2, 3, 5, b + 1}, Buf: b, FanIn: true, Params: true, GoFunc: true, WriteAPI: true, MultiOut: true, Portless: true,
 			ParamComb: true, Cores: mt, MaxTasks: mt, SleepMax: 5, MapTags: true, TagShared: true, Join: true, NoUnequal: true, Recorders: true}
 		s := gen.Graph(rng, fmt.Sprintf("g%d", g), o)
 		for k := 0; k < reps; k++ {
